@@ -101,12 +101,36 @@ def to_reduced(ref, spec):
     return np.transpose(ref, reduced_order(spec)) if ref.ndim else ref
 
 
-def chunk_array(a, spec_chunks, base_ndim=2):
-    """dask array with the given ensemble chunk sizes and single-chunk base axes."""
+def chunk_array(a, spec_chunks, base_ndim=2, base_chunks=None):
+    """dask array with the given ensemble chunk sizes; base axes in one chunk unless base_chunks gives a chunk
+    size per base axis (None / 0 = whole axis)."""
     import dask.array as da
     ens = a.shape[: a.ndim - base_ndim]
-    chunks = tuple(max(1, min(int(c), n)) for c, n in zip(spec_chunks, ens)) + a.shape[a.ndim - base_ndim:]
+    base = a.shape[a.ndim - base_ndim:]
+    chunks = tuple(max(1, min(int(c), n)) for c, n in zip(spec_chunks, ens))
+    if base_chunks is None:
+        chunks += tuple(base)
+    else:
+        chunks += tuple(n if not c else max(1, min(int(c), n)) for c, n in zip(base_chunks, base))
     return da.from_array(a, chunks=chunks)
+
+
+def rand_base_chunks(rng, shape, p_split=0.5):
+    """None (whole images) or a chunk size per base axis: x only, y only or both axes split (unequal chunks likely)."""
+    if rng.random() >= p_split:
+        return None
+    which = int(rng.integers(0, 3))
+    out = [0, 0]
+    for ax in range(2):
+        if which == 2 or which == ax:
+            out[ax] = int(rng.integers(1, max(2, shape[ax])))
+    return out
+
+
+def steps_of(case):
+    """History cases: the case itself followed by copies in which the keys of each `then` entry are replaced."""
+    base = {k: v for k, v in case.items() if k != "then"}
+    return [base] + [dict(base, **ov) for ov in case.get("then", [])]
 
 
 def as_numpy(x):
